@@ -218,7 +218,10 @@ def run_c06(chk):
     chk.absorb("wire-c06doc", fcases, resf, crash_sig=panic_sig("C06"))
     # kind sweep: every scalar kind x {singular, optional, array, map} x every wrong-shaped value (the token model's universal
     # type only has string / enum / object / oneof collections), incl. huge exponents and long digit strings for numeric kinds
-    values = ["null", "true", "1", "-1", "1.5", "1e400", "1e50000000", "-1e-50000000", "9" * 400, '"x"', '""', '"1e50000000"', '"' + "9" * 400 + '"',
+    values = ["null", "true", "1", "-1", "1.5", "1e400", "1e50000000", "-1e-50000000", "9" * 400,
+              # exponents at the edges of 32 bits (scale arithmetic of decimals and floats)
+              "1e-2147483648", "1.5e-2147483647", "1e-2147483647", "1e2147483647", "1e-2147483649", "1e2147483648", '"1e-2147483648"', '"1e2147483647"',
+              "1e-6176", "1e-6177", "1e6144", "1e6145", '"x"', '""', '"1e50000000"', '"' + "9" * 400 + '"',
               "[]", "{}", "[null]", '{"k":null}', "[[]]", "[{}]", '{"k":[]}', '{"k":{}}', '[1,null]', '{"!type":"a"}', '{"!type":null}',
               '[true]', '["x"]', '{"k":true}', '{"k":"x"}', '{"k":1.5}', '[1.5]', '"2024-02-30"', '"0000-00-00"', '"-1"']
     sweep = []
@@ -226,7 +229,7 @@ def run_c06(chk):
         for card in "samo":
             for v in values:
                 sweep.append({"kind": k, "card": card, "value": v, "query": False})
-        for v in ["", " ", "true", "1e50000000", "9" * 400, "{", "[", "{}", "null", "x", "%"]:
+        for v in ["", " ", "true", "1e50000000", "1e-2147483648", "9" * 400, "{", "[", "{}", "null", "x", "%"]:
             for card in "sa":
                 sweep.append({"kind": k, "card": card, "value": v, "query": True})
     ress = chk.replay("wire-sweep", sweep, "sweep", workers=W, timeout="20s")
